@@ -195,7 +195,7 @@ func TestCheck(t *testing.T) {
 	peer.Register()
 	r := h.Start(t, "C12")
 	defer r.Finish()
-	r.Meta("rule", "real client <-> real server on every transport {mock, tcp, unix, udp, net/http, fasthttp server, websocket on net/http and on fasthttp; the fasthttp client transport in processes of its own}: request lengths 0..1100 exhaustively (0..5000 in the thorough tier, 0..40 under the race detector), +-2 around every power of two up to 2^20, 255/256, 4095..4097, 65499/65500/65507, 64 KiB +-2, 1 MiB x contents {zeros, 0xff, pseudo-random, frame-header look-alikes, hprose look-alikes} x response lengths from the same set; an IO-level recorder inside the service must see exactly the submitted bytes and the caller must get exactly the bytes the service produced (the in-process result of Service.Handle for the same request). Hand-crafted frames from raw peers: every single-bit flip of the 12-byte tcp/unix header and the 8-byte udp header (exhaustive), declared vs actual body length for all pairs in {0,1,5,100,65499} (udp preceded by another client's datagram full of a marker), http Content-Length larger than the bytes sent followed by half-close, tcp close mid-body; mirror set from raw servers to real clients; a late answer to an abandoned call whose body forges a well-formed frame for the call that is pending now (tcp, unix, udp, ws; five alignments). Oracle: nothing delivered, or exactly the declared self-consistent frame; never truncated, padded or completed with foreign bytes. distinct_nontrivial = distinct (transport, direction, length, content) cells and (transport, corruption) cases")
+	r.Meta("rule", "real client <-> real server on every transport {mock, tcp, unix, udp, net/http, fasthttp server, websocket on net/http and on fasthttp; the fasthttp client transport in processes of its own}: request lengths 0..1100 exhaustively (0..5000 in the thorough tier, 0..40 under the race detector), +-2 around every power of two up to 2^20, 255/256, 4095..4097, 65499/65500/65507, 64 KiB +-2, 1 MiB x contents {zeros, 0xff, pseudo-random, frame-header look-alikes, hprose look-alikes} x response lengths from the same set; an IO-level recorder inside the service must see exactly the submitted bytes and the caller must get exactly the bytes the service produced (the in-process result of Service.Handle for the same request). Hand-crafted frames from raw peers: every single-bit flip of the 12-byte tcp/unix header and the 8-byte udp header (exhaustive), declared vs actual body length for all pairs in {0,1,5,100,65499} (udp preceded by another client's datagram full of a marker), http Content-Length larger than the bytes sent followed by half-close, tcp close mid-body; mirror set from raw servers to real clients; a late answer to an abandoned call whose body forges a well-formed frame for the call that is pending now (tcp, unix, udp, ws; five alignments). Oracle: nothing delivered, or exactly the declared self-consistent frame; never truncated, padded or completed with foreign bytes. distinct_nontrivial = distinct (transport, direction, length, content) cells and (transport, corruption) cases Added: a late answer to an abandoned call whose body forges a well-formed frame for the call pending now; udp declared/actual deliveries are judged by the datagram's own fill byte, so that late processing on a loaded machine cannot be misattributed. Round 3 additions: write time-outs inside a frame followed by further requests; the service-side recorder keeps the slices it was handed and verifies them at the end.")
 	r.Meta("assumptions", []string{
 		"payload sizes up to 1 MiB (udp up to 65499 bytes)",
 		"for a frame that is self-consistent after corruption (declared length shorter than what follows) the declared prefix may be delivered; the rest must not be",
